@@ -237,6 +237,23 @@ Proof.
   unfold oez, oeN, oeD. interval with (i_prec 80).
 Qed.
 
+Lemma gauss_quant_monotone_l p q mu std : 0 < std -> p < q ->
+  (0 < p -> q < 1 -> gauss_quant p mu std <= gauss_quant q mu std) /\
+  (1 / 10 ^ 20 <= p -> q <= 1 - 1 / 10 ^ 20 -> gauss_quant p mu std < gauss_quant q mu std).
+Proof.
+  intros Hs Hpq. split; intros.
+  - apply gauss_quant_increasing_l; assumption.
+  - apply gauss_quant_strictly_increasing_c; assumption.
+Qed.
+
+Lemma gauss_quant_sign_median_l p : 0 < p -> p < 1 ->
+  (p < 1 / 2 -> gauss_quant p 0 1 < 0) /\ (1 / 2 <= p -> 0 < gauss_quant p 0 1) /\
+  Rabs (gauss_quant (1 / 2) 0 1) <= 2 / 100000000.
+Proof.
+  intros H0 H1. destruct (gauss_quant_sign_l p H0 H1) as [A B].
+  split; [exact A | split; [exact B | exact gauss_quant_median_l]].
+Qed.
+
 (* far tails saturate at 10 standard deviations *)
 Lemma gauss_quant_tail_l p : 0 < p -> p < tail_eps -> gauss_quant p 0 1 = -10 /\ gauss_quant (1 - p) 0 1 = 10.
 Proof.
